@@ -358,7 +358,7 @@ class Interp:
 
     def __init__(self, fi, program, inline=None, loop_policy=None,
                  noreturn=None, assume=None, max_inline=3, bind=None,
-                 try_raises=True, extra_pure=()):
+                 try_raises=True, extra_pure=(), self_class=None):
         self.fi = fi
         self.P = program
         self.m = program.model
@@ -370,6 +370,9 @@ class Interp:
         self.bind = bind or {}
         self.try_raises = try_raises
         self.extra_pure = set(extra_pure)
+        # the class of the receiver when a method is analysed for a
+        # particular (sub)class: its class-level constants fold
+        self.self_class = self_class
         from . import excflow
         self._noreturn = noreturn or (
             lambda f, call: excflow.is_noreturn_call(self.P, f, call))
@@ -738,6 +741,11 @@ class Interp:
             base = self.eval(node.value, env)
             if base[0] == "global":
                 return ("global", base[1] + "." + node.attr)
+            if base == ("self",) and self.self_class is not None \
+                    and isinstance(node.ctx, ast.Load):
+                c = self._class_constant(node.attr)
+                if c is not None:
+                    return c
             if isinstance(node.ctx, ast.Load):
                 try:
                     hit = self.path.heap.get(("attr", base, node.attr))
@@ -980,6 +988,22 @@ class Interp:
 
     def eval_int(self, node, env):
         return self.eval(node, env)
+
+    def _class_constant(self, attr):
+        """Class-level constant of the receiver's class (never assigned on
+        instances anywhere in its hierarchy)."""
+        cq = self.self_class
+        for k in self.m.mro(cq):
+            c = self.m.classes.get(k)
+            if c is not None and attr in c.fields:
+                return None
+        try:
+            v = self.m.fold_class_attr(cq, attr)
+        except Exception:
+            return None
+        if isinstance(v, (str, int, float, bool, type(None))):
+            return const(v)
+        return None
 
     def _global_dict(self, t):
         if t[0] != "global" or "." not in t[1]:
